@@ -25,7 +25,7 @@ from vmon.util import derive_rng, shash
 
 LEVEL = "exploration"
 MANIFEST = {
-    "text": "Batches of seeded random programs are built in the worker and again in fresh interpreters started with PYTHONHASHSEED in {1, 2, random}, in a permuted order, interleaved with unrelated filler queries and gc.collect(); the names of every expression of the logical and the optimized plan and the expression-derived graph keys must be identical. Inside the worker a monitor on Expr.__new__ compares, on every dedupe hit, a structural signature of the new operands (own content hashes, not dask's tokenize) with the existing instance's. Every program is also mutated in one field at a time (literals, column names, sibling operators, keywords, one data cell, the index only, a dtype only, the partition count); a mutant that keeps the root name although pandas gives a different result is a violation.",
+    "text": "Batches of seeded random programs are built in the worker and again in fresh interpreters started with PYTHONHASHSEED in {1, 2, random}, in a permuted order, interleaved with unrelated filler queries and gc.collect(); the names of every expression of the logical and the optimized plan and the expression-derived graph keys must be identical. Inside the worker a monitor on Expr.__new__ compares, on every dedupe hit, a structural signature of the new operands (own content hashes, not dask's tokenize) with the existing instance's. Every program is also mutated in one field at a time (literals, column names, sibling operators, keywords, one data cell, the index only, a dtype only, the partition count); a mutant that keeps the root name although pandas gives a different result is a violation. 14 pairs of live collections over different data (from_graph with user keys, persist before / after a file rewrite, impure from_map, closures, rewritten csv / parquet) must not share a name.",
     "note": "DiskShuffle's per-materialisation uuid keys (zpartd-/shuffle-partition-/barrier-) are masked: they are regenerated inside one process too and never shared between graphs. API-level normalisation makes some spellings legitimately identical, so an equal name is a violation only when the pandas results differ.",
     "technique": "runtime monitoring: cross-process / cross-hash-seed name log comparison (offline checker) + M-new dedupe-signature monitor + single-field mutant aliasing oracle",
     "design_ref": "DESIGN.md section 4, C08",
